@@ -50,14 +50,24 @@ package util
 
 //@ func SortedSet.Add
 //@   props C04 C05 C15 C17
-//@   trustedpost append followed by an in-place slices.Sort: permutation reasoning is outside the subset
+//@   uses mem_def
+//@   hint before slices.Sort: forall x string :: Mem(deref(set), x) == (old(Mem(deref(set), x)) || x == e)
+//@   hint before slices.Sort: old(SetInv(deref(set))) ==> (forall p, q :: 0 <= p && p < q && q < len(set.elems) ==> set.elems[p] != set.elems[q])
 //@   requires set != nil
 //@   assigns set.elems
 //@   assigns set.maxLen
 //@   assigns elems(set.elems)
+//@   # (the first five clauses are stepping stones for the solver; each is proved, then available to the next)
+//@   ensures old(SetInv(deref(set))) ==> (forall p, q :: 0 <= p && p < q && q < len(set.elems) ==> set.elems[p] < set.elems[q])
+//@   ensures old(SetInv(deref(set))) ==> (forall q :: 0 <= q && q < len(set.elems) ==> len(set.elems[q]) <= set.maxLen)
+//@   ensures old(SetInv(deref(set))) ==> 0 <= set.maxLen && set.maxLen <= 9223372036854775807
 //@   ensures old(SetInv(deref(set))) ==> SetInv(deref(set))
 //@   ensures arr(set.elems) == old(arr(set.elems)) || isfresh(arr(set.elems))
 //@   ensures len(set.elems) >= 1
+//@   ensures Mem(deref(set), e)
+//@   ensures forall x string :: old(Mem(deref(set), x)) ==> Mem(deref(set), x)
+//@   ensures forall x string :: (old(Mem(deref(set), x)) || x == e) ==> Mem(deref(set), x)
+//@   ensures forall x string :: Mem(deref(set), x) ==> (old(Mem(deref(set), x)) || x == e)
 //@   ensures forall x string :: Mem(deref(set), x) == (old(Mem(deref(set), x)) || x == e)
 
 //@ func Set.Add
